@@ -113,7 +113,7 @@ def body_E1(ctx):
         def ser(v):
             calls[name] = calls.get(name, 0) + 1
             if name in raising:
-                raise SerBoom(name)
+                raise [SerBoom, StopIteration, KeyError, TypeError][int(sh.get("ser_exc", 0))](name)
             return ["ser", v]
 
         return ser
@@ -238,9 +238,9 @@ OBLIGATIONS = [
         "X",
         desc="every subset of raising serializers / missing declared fields x {stand-alone, start, success} x nesting depth: message withheld, one traceback + one serialization_failure in the current context, call returns, serializers called once",
         functions=["Logger.write", "_MessageSerializer.serialize", "write_traceback", "log_message", "_safe_unicode_dictionary"],
-        shards={"quick": [{"fields": 2, "depth": 2}], "thorough": [{"fields": 3, "depth": 3}]},
+        shards={"quick": [{"fields": 2, "depth": 2, "ser_exc": e} for e in (0, 1, 2, 3)], "thorough": [{"fields": 3, "depth": 3, "ser_exc": e} for e in (0, 1, 2, 3)]},
         twin=[{"fields": 2, "depth": 2, "twin_label": "fault-nested"}],
         timeout={"quick": 100, "thorough": 600},
-        bounds={"quick": "2 declared fields (one custom serializer: ok/raising/missing; one Field.for_types identity field: ok/missing), 3 message kinds, nesting depth 0-2", "thorough": "3 declared fields, depth 0-3"},
+        bounds={"quick": "2 declared fields (one custom serializer: ok/raising/missing; one Field.for_types identity field: ok/missing), 3 message kinds, nesting depth 0-2; failing serializers raise a custom exception, StopIteration, KeyError or TypeError", "thorough": "3 declared fields, depth 0-3"},
     ),
 ]
